@@ -20,6 +20,7 @@ package yang
 
 import (
 	"fmt"
+	"sort"
 	"sync"
 )
 
@@ -359,12 +360,8 @@ func (ms *Modules) Process() []error {
 	// what order to process them in, so repeat until no progress is made
 
 	mods := make([]*Module, 0, len(ms.Modules)+len(ms.SubModules))
-	for _, m := range ms.Modules {
-		mods = append(mods, m)
-	}
-	for _, m := range ms.SubModules {
-		mods = append(mods, m)
-	}
+	mods = append(mods, sortedModules(ms.Modules)...)
+	mods = append(mods, sortedModules(ms.SubModules)...)
 	for len(mods) > 0 {
 		var processed int
 		for i := 0; i < len(mods); {
@@ -406,7 +403,7 @@ func (ms *Modules) Process() []error {
 	// an entry does not exist.
 	dvP := map[string]bool{} // cache the modules we've handled since we have both modname and modname@revision-date
 	for _, devmods := range []map[string]*Module{ms.Modules, ms.SubModules} {
-		for _, m := range devmods {
+		for _, m := range sortedModules(devmods) {
 			e := ToEntry(m)
 			if !dvP[e.Name] {
 				errs = append(errs, e.ApplyDeviate(ms.ParseOptions.DeviateOptions)...)
@@ -426,6 +423,22 @@ func (ms *Modules) Process() []error {
 	}
 
 	return errorSort(errs)
+}
+
+// sortedModules returns the modules in m ordered by the name they are filed
+// under, so that work whose outcome depends on the order in which modules are
+// visited does not depend on map iteration order.
+func sortedModules(m map[string]*Module) []*Module {
+	names := make([]string, 0, len(m))
+	for name := range m {
+		names = append(names, name)
+	}
+	sort.Strings(names)
+	mods := make([]*Module, 0, len(names))
+	for _, name := range names {
+		mods = append(mods, m[name])
+	}
+	return mods
 }
 
 // include resolves all the include and import statements for m.  It returns
